@@ -3,6 +3,7 @@
   Totality of `checkFuzz` in the model is by construction (every Lean function is total); that
   the CODE is total on arbitrary bytes is what the correspondence and the monitor exercise.
 -/
+import RapidModel.Generated.CallOrders
 import RapidProofs.Shrink
 
 namespace Rapid.C13
@@ -68,5 +69,11 @@ theorem unconsumed_words_irrelevant (p : Prog) (ws xs : List UInt64)
 
 example : wordsOfBytes [1, 2, 0, 0, 0, 0, 0, 0, 3] = [513, 3] := by
   simp only [wordsOfBytes_cons, wordsOfBytes_nil, wordOfBytes, List.take, List.drop]; decide
+
+/-! ### facts re-read from /repo's source on every run -/
+
+/-- `checkFuzz`: decode loop, fresh T on the buffer, one `checkOnce`, then the outcome switch -/
+theorem checkFuzz_order_source :
+    Rapid.Generated.order_checkFuzz = ["call tb.Helper", "stmt", "for", "call newT", "call checkOnce", "stmt"] := by decide
 
 end Rapid.C13
